@@ -4,5 +4,10 @@ CLAIMED = {
    ref='5 C01; 3 Semantics, CTLAlgo',
    note='Trusted: TLC, the TLA+ semantics (three formulations cross-checked by MC_Sem at <=2 states), the harness conversion between abstract values and pyModelChecking objects. Beyond the enumerated scope the guarantee is statistical.',
    technique='TLA+ spec + TLC: exhaustive Layer-B model check and batched trace validation of real calls'),
+ 'C02': dict(
+   text='TLC decides every recorded LTL.modelcheck call against the CTL* tableau semantics SatStar; every excluded state of events with <=3 states is additionally certified by a concrete lasso evaluated with the transliterated documentation semantics (ExistsLasso), and MC_Sem proves tableau = lasso semantics at <=2 states. Inputs: all structures <=2 states x all path formulas <=4 nodes, a 40-structure 3-state catalogue x the same formulas, sampled formulas with <=3 temporal operators, seeded random <=5 states. The atom construction as coded (LTLAlgo: closure, _build_atoms with the order of equal-height closure formulas nondeterministic, tableau, self-fulfilling SCCs) is model-checked against the semantics for every processing order.',
+   ref='5 C02; 3 LTLAlgo; 6 F1 F2',
+   note='Trusted: TLC, the TLA+ semantics (cross-checked three ways in MC_Sem), harness conversion. LTLAlgo scope: <=2 states, one atom, restricted formulas of size <=5. Beyond the enumerated scope the guarantee is statistical.',
+   technique='TLA+ spec + TLC: exhaustive Layer-B model check (all tie-break orders) and batched trace validation of real calls with lasso certificates'),
 }
 NOT_APPLICABLE = {}
